@@ -204,7 +204,7 @@ def gen_model(rng, stream="main", size=None):
     kinds_all = ["const", "const", "alias", "alias", "negalias", "negalias", "affine", "affine", "paramexpr",
                  "scaled", "pscaled", "block", "elim", "elim", "zero", "negform", "paramalias", "inputalias"]
     if stream == "nonlinear":
-        kinds_all = kinds_all + ["nonlin", "nonlin", "nonlin"]
+        kinds_all = kinds_all + ["nonlin", "nonlin", "nonlin", "ifelim", "ifelim"]
     if stream in ("contradiction", "iter"):
         kinds_all = [k for k in kinds_all if k != "elim"]
     i = 0
@@ -290,6 +290,21 @@ def gen_model(rng, stream="main", size=None):
                 eq, val = "%s + (%s) = 0" % (v, rhs), -val
             else:
                 eq, val = "(%s) + %s = 0" % (rhs, v), -val
+        elif kind == "ifelim":
+            # an if-equation defining an eliminable variable; after the SX round trip it is the sum of two
+            # if_else_zero terms `extract_assignment` looks through (condition on an input only)
+            w = b.ref(b.unknowns + b.states)
+            if w is None or not b.unames:
+                continue
+            u = r.choice(b.unames)
+            k1, k2 = b.small(lo=-3, hi=3), b.small(lo=-3, hi=3)
+            thr = b.small(lo=-2, hi=2)
+            v = "e_v%d" % i
+            val = b.sol[w] + (k1 if b.sol[u] > thr else k2)
+            eq = "if %s > %s then %s = %s + %s; else %s = %s + %s; end if" % (
+                u, lit(thr) if thr >= 0 else par(lit(thr)), v, w, lit(k1) if k1 >= 0 else par(lit(k1)),
+                v, w, lit(k2) if k2 >= 0 else par(lit(k2)))
+            b.affine = False
         elif kind == "nonlin":
             w = b.ref()
             if w is None:
@@ -484,11 +499,14 @@ def gen_options(rng, case):
     stream = case["stream"]
     o = {f: rng.random() < 0.5 for f in BOOL_FLAGS}
     has_elim = "e_v" in case["text"]
+    has_if = " if " in case["text"]
     has_init = "initial equation" in case["text"]
     if rng.random() < (0.6 if has_elim else 0.15):
         o["eliminable_variable_expression"] = ELIM_RE
         if rng.random() < 0.97:
             o["expand_mx"] = True          # required by the pass (otherwise it raises by design)
+        if has_if and rng.random() < 0.7:
+            o["expand_vectors"] = True     # the SX round trip that turns if-equations into if_else_zero sums
     if rng.random() < 0.25:
         o["allow_derivative_aliases"] = False
     iterative = rng.random() < 0.15
